@@ -54,3 +54,13 @@ Theorem C19_late_disable_test_refuted : exists d n1 n2 c,
   d || n1 || n2 = true /\ wrapper_trace_src false d n1 n2 c <> [EBody].
 Proof. exact late_disable_test_refuted. Qed.
 Print Assumptions C19_late_disable_test_refuted.
+
+(* the decorated-call wrapper AS REGENERATED FROM THE SOURCE on every run (gen/StorageSrc.v: src_wrapped_fn, interpreted by
+   model/SL.v): when the switch reads true the wrapper's result and store are exactly those of calling the wrapped function --
+   it binds nothing, pushes nothing, pops nothing -- whatever the wrapped function and the rest of the program do *)
+From JT Require Import model.SL gen.StorageSrc proofs.SLWrapFacts.
+Theorem C19_wrapper_as_in_source_switched_off_is_the_plain_call : forall ext a k c f p h i s s1,
+  ext "config.jaxtyping_disable" [] s = (SRVal (SVBool true), s1) ->
+  run_ext ext wrapped_src "wrapped_fn" [a; k; c; f; p; h; i] s = Some (ext "fn" [a; k] s1).
+Proof. exact wrapped_fn_disabled_is_the_plain_call. Qed.
+Print Assumptions C19_wrapper_as_in_source_switched_off_is_the_plain_call.
